@@ -1039,6 +1039,10 @@ func ruleWaitLoopsProgress(r *Run, rule string) {
 					tests := map[string]idleTest{}
 					if fs.Cond != nil {
 						idleTestsIn(w, v, info, fs.Cond, 0, tests)
+						// a loop condition made of idleness tests keeps the loop running while ANY of the components is busy
+						if len(tests) > 0 {
+							r.check(idlePolarity(w, v, info, fs.Cond) == "busy", rule, fmt.Sprintf("%s.%s:loop#%d:runs-while-any-busy", v.rel, declName(fd), n), fs.Pos(), "the loop condition holds whenever one of the components it waits for is busy (a disjunction of negated idleness tests)")
+						}
 					}
 					// ifs of the body (not of nested condition loops, which are checked on their own)
 					var walk func(list []ast.Stmt)
